@@ -273,6 +273,28 @@ example : WF 2 [4294967295, 4294967295] ∧ WF 2 [4294967295, 2147483648] ∧ va
     Loops.u32s_rem_div 2 [4294967295, 4294967295] [4294967295, 2147483648] = ([1, 0], [0, 2147483647]) ∧
     Loops.u32s_rem_div_ok 2 [5, 5] [0, 0] = false := by decide +kernel
 
+/-- regenerated `Mul for U32s<N>` = hand model (value and fuel: when the model returns a value the regenerated loops finish
+    within their fuel with that value and no `assert!` fails; when the model panics an `assert!` of the regenerated code fails) -/
+theorem gen_mul_eq_model {N : Nat} {a b : List Nat} (ha : WF N a) (hb : WF N b) (hN : N < NMax) :
+    (∀ r, mul a b = some r → Loops.u32s_mul N a b = some r ∧ Loops.u32s_mul_ok N a b = true) ∧
+    (mul a b = none → Loops.u32s_mul_ok N a b = false) :=
+  TF.GenBridge.U32s2.gen_mul_eq N a b ha hb hN
+
+/-- **transfer of `mul_spec`**: the `Mul` that is in the source now returns the exact product when it is representable
+    (finishing within the fuel, no `assert!` failing) and panics (an `assert!` fails) otherwise — never wraps -/
+theorem gen_mul_transfer {N : Nat} {a b : List Nat} (ha : WF N a) (hb : WF N b) (hN : N < NMax) :
+    (val a * val b < W ^ N → Loops.u32s_mul N a b = some (ofNat N (val a * val b)) ∧ Loops.u32s_mul_ok N a b = true) ∧
+    (¬ val a * val b < W ^ N → Loops.u32s_mul_ok N a b = false) := by
+  obtain ⟨hs, hn⟩ := gen_mul_eq_model ha hb hN
+  have h := mul_spec ha hb
+  constructor
+  · intro hlt; rw [if_pos hlt] at h; exact hs _ h
+  · intro hge; rw [if_neg hge] at h; exact hn h
+example : WF 4 [4294967295, 4294967295, 0, 0] ∧
+    Loops.u32s_mul 4 [4294967295, 4294967295, 0, 0] [4294967295, 4294967295, 0, 0] = some [1, 0, 4294967294, 4294967295] ∧
+    Loops.u32s_mul_ok 4 [4294967295, 4294967295, 0, 0] [4294967295, 4294967295, 0, 0] = true ∧
+    Loops.u32s_mul_ok 2 [0, 1] [0, 1] = false := by decide +kernel
+
 /-- regenerated `is_zero`, `zero`, `one`, `From<u32>` = hand model -/
 theorem gen_small_eq_model (N : Nat) (a : List Nat) (v : Nat) :
     Loops.u32s_is_zero N a = isZero a ∧ Loops.u32s_zero N = zero N ∧
